@@ -474,7 +474,7 @@ class Concatenator(Group):  # pylint: disable=too-many-public-methods
         if not isinstance(children, list):
             children = [children]
 
-        for child in children:
+        for child in list(children):
             if child not in self._children:
                 continue
 
